@@ -1,0 +1,21 @@
+//go:build verif
+
+package airgapped
+
+import "github.com/lidofinance/dc4bc/dkg"
+
+// Accessors used by the verification tooling (build tag "verif").
+
+func (am *Machine) VerifDKGInstance(dkgID string) *dkg.DKG { return am.dkgInstances[dkgID] }
+
+func (am *Machine) VerifDKGInstanceIDs() []string {
+	out := make([]string, 0, len(am.dkgInstances))
+	for k := range am.dkgInstances {
+		out = append(out, k)
+	}
+	return out
+}
+
+func (am *Machine) VerifClose() error { return am.db.Close() }
+
+func (am *Machine) VerifBaseSeed() []byte { return append([]byte(nil), am.baseSeed...) }
